@@ -81,7 +81,12 @@ func runLBMix(x *X) {
 		s.Teardown()
 		return
 	}
-	x.Sample["config"] = fmt.Sprintf("strategy=%s backends=%d passive=%v(th=%d,window=%ds) active=%v breaker=%v limiter=%v wspool=%v chain=%v", strategy, nb, o.passive, o.threshold, o.window, o.active, o.breaker != nil, o.limiter != nil, o.wsPool, o.fullChain)
+	stalls := c.Intn(3, "stalls") == 0
+	if stalls {
+		// some goroutines lose the CPU for longer than windows, probe intervals and breaker timeouts
+		x.EnableStalls(25, 3, 300*time.Millisecond, 1200*time.Millisecond, 2500*time.Millisecond, 6*time.Second)
+	}
+	x.Sample["config"] = fmt.Sprintf("strategy=%s backends=%d passive=%v(th=%d,window=%ds) active=%v breaker=%v limiter=%v wspool=%v chain=%v stalls=%v", strategy, nb, o.passive, o.threshold, o.window, o.active, o.breaker != nil, o.limiter != nil, o.wsPool, o.fullChain, stalls)
 	x.Logf("lbmix %s", x.Sample["config"])
 
 	admin := func(method, path string, body any) {
